@@ -127,6 +127,11 @@ func (cr *ChunkReader) Read(p []byte) (int, error) {
 	if cr.checksumHash != nil {
 		cr.checksumHash.Write(p[:n])
 	}
+	if err == io.EOF {
+		// the end of a valid stream is reported where the final (zero
+		// length) chunk is parsed: here the body ended before it
+		return n, io.ErrUnexpectedEOF
+	}
 	return n, err
 }
 
